@@ -265,11 +265,11 @@ func runC09(c *Ctx) {
 				nsteps++
 				// exactly one element per Step
 				var rd, wr int
-				for i, a := range emu.Log {
-					if i < 2 {
-						if a.Kind != 'R' || a.Addr != pc+uint16(i) {
-							bad = "instruction bytes not fetched once each"
-						}
+				var fetched [2]bool
+				for _, a := range emu.Log {
+					off := a.Addr - pc
+					if a.Kind == 'R' && off < 2 && !fetched[off] {
+						fetched[off] = true // the instruction's own two bytes, in any order
 						continue
 					}
 					if a.Kind == 'R' {
@@ -277,6 +277,9 @@ func runC09(c *Ctx) {
 					} else {
 						wr++
 					}
+				}
+				if !fetched[0] || !fetched[1] {
+					bad = "instruction bytes not fetched once each"
 				}
 				pio := len(eio.Log) - nio
 				wantRd, wantWr, wantIO := 1, 1, 0
